@@ -60,6 +60,13 @@ def isConstStr : Expr → Bool
   | .const (.str _) => true
   | _ => false
 
+/-- no brace in the literal text of a format spec: there (3.12+) `{{` / `}}` are *not* read as escaped
+    braces, so the rule below speaks only about specs whose literal text has none -/
+def specLitsNoBrace : List Expr → Bool
+  | [] => true
+  | .const (.str cps) :: vs => cps.all (fun c => c != 123 && c != 125) && specLitsNoBrace vs
+  | _ :: vs => specLitsNoBrace vs
+
 def starGroup (va : Option String) (ko : List String) : List (List Tok) :=
   match va with
   | some v => [[.op "*", .name v]]
@@ -238,7 +245,7 @@ mutual
   inductive DSpec : Quote → List Tok → Option Expr → Prop
     | none {q : Quote} : DSpec q [] none
     | some {q : Quote} {parts : List Tok} {vs : List Expr} :
-        DParts q parts vs → DSpec q (.op ":" :: parts) (some (.joinedStr vs))
+        DParts q parts vs → specLitsNoBrace vs = true → DSpec q (.op ":" :: parts) (some (.joinedStr vs))
 
   /-- slices: slice !',' | ','.(slice | starred_expression)+ [','] -/
   inductive DSlices : List Tok → Expr → Prop
